@@ -64,8 +64,8 @@ UNIT_ADTS = set()  # crate structs without fields (filled by Facts): zero-sized,
 
 
 def is_phantom(fty):
-    return fty["s"].startswith("std::marker::PhantomData") or (fty.get("adt") in UNIT_ADTS and fty.get("k") == "adt"
-                                                                and not fty.get("ref"))
+    return fty["s"].startswith("std::marker::PhantomData") or bool(fty.get("debug_only")) or (
+        fty.get("adt") in UNIT_ADTS and fty.get("k") == "adt" and not fty.get("ref"))
 
 
 SCALARS = {"usize", "u8", "u16", "u32", "u64", "u128", "isize", "i8", "i16", "i32", "i64", "i128",
@@ -387,6 +387,8 @@ def item_storage(cat, adt):
                 continue
             if ib.self_adt == adt and (ib.name in LIFECYCLE_NAMES or only_lifecycle_callers(F, ib, adt)):
                 continue
+            if ib.self_adt in F.custom_iterator_adts():
+                continue  # a helper iterator type of the crate (it reads on behalf of whoever builds it)
             res.add(f)
             break
     return res
